@@ -1087,7 +1087,16 @@ def uses_statistics(spec, kw):
 def assume_preconditions(ctx, spec, kw, cfg):
     """only what the documentation / property text states (A-pre in DESIGN.md)"""
     hs = arrays_of(kw)
-    if uses_statistics(spec, kw):
+    if cfg.get('const_field'):
+        # constant fields (every non-missing value equal, at least one missing cell): legal data; what the command answers is
+        # its own business (all missing, an error), but missing cells stay missing and nothing leaks
+        for h in hs:
+            d, m, rep = arr_cells(h.arr)
+            m = m if m is not None else [z3.BoolVal(False)] * len(d)
+            ctx.assume(z3.And(*[z3.Or(m[i], m[j], d[i] == d[j]) for i in range(len(d)) for j in range(i + 1, len(d))]))
+            ctx.assume(z3.Or(*m))
+            ctx.assume(z3.Or(*[z3.Not(x) for x in m]))
+    elif uses_statistics(spec, kw):
         # at least two distinct non-missing values (otherwise thresholds coincide: documented error / undefined)
         for h in hs:
             d, m, rep = arr_cells(h.arr)
